@@ -32,6 +32,7 @@ def run(ctx, repo):
     ctx.call(RX.r_no_generator_around_callback, repo)
     ctx.call(R6B.r_finally_bound, repo)
     ctx.call(R6B.r_no_module_state, repo)
+    ctx.call(R6B.r_no_mutable_default, repo)
 
 
 if __name__ == '__main__':
